@@ -20,6 +20,10 @@ def check_proof(cell: "Cell", hash_: bytes) -> None:
     if cell.type_ != CellTypes.merkle_proof:
         raise ProofError(f'Expected Merkle proof Cell, got {cell.type_} Cell type')
 
+    if cell.level_mask.mask != 0:
+        # pruned branches of a higher level than the Merkle cells above them account for: what they store for that level is committed by nothing
+        raise ProofError('Merkle proof cell of non-zero level')
+
     if cell.data[1:33] != hash_:
         raise ProofError('Provided invalid hash')
 
@@ -57,6 +61,8 @@ def check_shard_proof(shard_proof: bytes, blk: BlockIdExt, shrd_blk: BlockIdExt)
     for proof_cell in shard_proof_cells:
         if proof_cell.type_ != CellTypes.merkle_proof:
             raise ProofError(f'Expected Merkle proof Cell, got {proof_cell.type_} Cell type')
+        if proof_cell.level_mask.mask != 0:
+            raise ProofError('Merkle proof cell of non-zero level')
 
     block_info = Block.deserialize(mc_block_cell[0].begin_parse()).info
 
@@ -98,6 +104,8 @@ def check_account_proof(proof: bytes, shrd_blk: BlockIdExt, address: "Address", 
     for proof_cell in proof_cells:
         if proof_cell.type_ != CellTypes.merkle_proof:
             raise ProofError(f'Expected Merkle proof Cell, got {proof_cell.type_} Cell type')
+        if proof_cell.level_mask.mask != 0:
+            raise ProofError('Merkle proof cell of non-zero level')
 
     state_hash = check_block_header_proof(proof_cells[0][0], shrd_blk.root_hash, True)
 
